@@ -102,7 +102,19 @@ def ACls.admits : ACls → Val → Bool
   | .decimal, .opaque "Decimal" _ => true
   | .fraction, .opaque "Fraction" _ => true
   | .pathLike, .opaque t _ => t.startsWith "Path:"
+  | a, .sub _ b => admitsBase a b     -- an instance of a user subclass is an instance of its base
   | _, _ => false
+where
+  admitsBase : ACls → Val → Bool
+    | .bool, .bool _ => true
+    | .int, .bool _ => true
+    | .int, .int _ => true
+    | .float, .float _ => true
+    | .complex, .complex _ _ => true
+    | .str, .str _ => true
+    | .bytes, .bytes _ => true
+    | .bytearray, .bytearray _ => true
+    | _, _ => false
 
 /-- Serialiser column of the scalar table: identity (`lambda v: v` / the type itself on its own
 values) or `str`. -/
